@@ -1,10 +1,14 @@
-(* Proofs/C05.v — proofs for property C05 (dispatch only on a session that meets the command's policy). *)
+(* Proofs/C05.v — proofs for property C05 (the server runs a command only on a
+   session that meets that command's policy). *)
 From Coq Require Import List ZArith NArith Bool Lia.
-From Cedar Require Import gen.FactsC05 Model.Server.
+From Cedar Require Import gen.FactsC05 Model.Server Proofs.C05Spec.
 Import ListNotations.
 
+(* ---- commandLevelSatisfied / sessionSatisfies ------------------------------ *)
+
 (* commandLevelSatisfied says exactly: REQUIRED authentication needs an
-   authenticated session, REQUIRED encryption or integrity an encrypted one *)
+   authenticated session, REQUIRED encryption or integrity an encrypted one.
+   (All 5*5*5 level triples and the nil policy, by case analysis.) *)
 Lemma level_ok_spec : forall req a e,
   level_ok req a e = true <->
   ((requires_authn req = true -> a = true) /\ (requires_enc req = true -> e = true)).
@@ -12,4 +16,520 @@ Proof.
   intros [p|] a e; cbn [level_ok requires_authn requires_enc].
   - destruct (is_req (p_authn p)), (is_req (p_enc p) || is_req (p_integ p)), a, e; cbn; intuition congruence.
   - intuition congruence.
+Qed.
+
+Lemma is_req_spec : forall l, is_req l = true <-> l = LRequired.
+Proof. destruct l; cbn; intuition congruence. Qed.
+
+Lemma session_satisfies_spec : forall s c peer n,
+  session_satisfies s c peer (Some n) = true <->
+  ((requires_authn (current_policy s c) = true -> n_authn n = true) /\
+   (requires_enc (current_policy s c) = true -> n_enc n = true) /\
+   (forall az, s_authorizer s = Some az ->
+      exists p, In p (command_perms s c) /\ az p peer (n_user n) = true)).
+Proof.
+  intros s c peer n. unfold session_satisfies, command_level_satisfied.
+  destruct (level_ok (current_policy s c) (n_authn n) (n_enc n)) eqn:L; cbn [negb].
+  - apply level_ok_spec in L. destruct L as [La Le].
+    destruct (s_authorizer s) as [az|] eqn:A.
+    + unfold authorized. rewrite existsb_exists. split.
+      * intros [p [Hin Hp]]. repeat split; auto. intros az' E. inversion E; subst. eauto.
+      * intros [_ [_ H]]. destruct (H az eq_refl) as [p [Hin Hp]]. eauto.
+    + split; auto. intros _. repeat split; auto. intros az E; discriminate.
+  - split; [discriminate|]. intros [Ha [He _]].
+    assert (level_ok (current_policy s c) (n_authn n) (n_enc n) = true) by (apply level_ok_spec; auto).
+    congruence.
+Qed.
+
+Lemma session_satisfies_nil : forall s c peer, session_satisfies s c peer None = false.
+Proof. reflexivity. Qed.
+
+(* ---- the keep-alive loop ------------------------------------------------------ *)
+
+Lemma auth_loop_eq : forall srv peer cs c steps,
+  auth_loop srv peer cs c steps =
+  match lookup (s_handlers srv) c with
+  | None => ([DRefuse c RUnknown], EClosedErr)
+  | Some h =>
+      if h_raw h then ([DRefuse c RWrongKind], EClosedErr)
+      else if negb (session_satisfies srv c peer (Some (cs_neg cs))) then ([DRefuse c RNotSatisfied], EClosedErr)
+      else
+        let inv := DInvoke {| i_handler := h_id h; i_rawpath := false; i_cmd := c;
+                              i_neg := Some (cs_neg cs); i_enc_real := cs_enc_real cs;
+                              i_auth_real := cs_auth_real cs; i_peer := peer; i_srv := srv |} in
+        match steps with
+        | [] => ([inv], EPending)
+        | st :: rest =>
+            match st_ret st with
+            | HErr => ([inv], EClosedErr)
+            | HKeepOpen => ([inv], EOpen)
+            | HDone => ([inv], EClosedOk)
+            | HKeepAlive =>
+                match st_next st with
+                | None => ([inv], EClosedOk)
+                | Some c' => let '(ds, e) := auth_loop (st_srv st) peer cs c' rest in (inv :: ds, e)
+                end
+            end
+        end
+  end.
+Proof. intros; destruct steps; reflexivity. Qed.
+
+(* what the loop guarantees about one dispatch it produced *)
+Definition loop_good (peer : addr) (cs : cstate) (d : dispatch) : Prop :=
+  match d with
+  | DRefuse _ _ => True
+  | DInvoke i =>
+      i_rawpath i = false /\ registered_authenticated i /\ i_neg i = Some (cs_neg cs) /\
+      session_satisfies (i_srv i) (i_cmd i) peer (Some (cs_neg cs)) = true /\
+      i_enc_real i = cs_enc_real cs /\ i_auth_real i = cs_auth_real cs /\ i_peer i = peer
+  end.
+
+(* refusals come last, and end the connection with an error *)
+Fixpoint refusals_final (ds : list dispatch) (e : cend) : Prop :=
+  match ds with
+  | [] => True
+  | DRefuse _ _ :: r => r = [] /\ e = EClosedErr
+  | DInvoke _ :: r => refusals_final r e
+  end.
+
+Ltac loop_cases H :=
+  rewrite auth_loop_eq in H;
+  match type of H with context [lookup ?t ?c] => destruct (lookup t c) as [h|] eqn:L end;
+  [ match type of H with context [h_raw ?x] => destruct (h_raw x) eqn:R end;
+    [ | match type of H with context [session_satisfies ?a ?b ?c ?d] =>
+          destruct (session_satisfies a b c d) eqn:S end; cbn [negb] in H ] | ].
+
+Lemma auth_loop_good : forall steps srv peer cs c ds e,
+  auth_loop srv peer cs c steps = (ds, e) -> Forall (loop_good peer cs) ds.
+Proof.
+  induction steps as [|st rest IH]; intros srv peer cs c ds e H; loop_cases H.
+  all: try (inversion H; subst; repeat constructor; fail).
+  - inversion H; subst. constructor; [|constructor]. cbn.
+    repeat split; auto. exists h; auto.
+  - assert (G : loop_good peer cs (DInvoke {| i_handler := h_id h; i_rawpath := false; i_cmd := c;
+                 i_neg := Some (cs_neg cs); i_enc_real := cs_enc_real cs;
+                 i_auth_real := cs_auth_real cs; i_peer := peer; i_srv := srv |})).
+    { cbn. repeat split; auto. exists h; auto. }
+    cbv zeta in H.
+    destruct (st_ret st); try (inversion H; subst; constructor; [exact G|constructor]; fail).
+    destruct (st_next st) as [c'|]; [|inversion H; subst; constructor; [exact G|constructor]].
+    destruct (auth_loop (st_srv st) peer cs c' rest) as [ds' e'] eqn:E.
+    inversion H; subst. constructor; [exact G|]. eapply IH; eauto.
+Qed.
+
+Lemma auth_loop_refusals_final : forall steps srv peer cs c ds e,
+  auth_loop srv peer cs c steps = (ds, e) -> refusals_final ds e.
+Proof.
+  induction steps as [|st rest IH]; intros srv peer cs c ds e H; loop_cases H.
+  all: try (inversion H; subst; cbn; auto; fail).
+  cbv zeta in H.
+  destruct (st_ret st); try (inversion H; subst; cbn; auto; fail).
+  destruct (st_next st) as [c'|]; [|inversion H; subst; cbn; auto].
+  destruct (auth_loop (st_srv st) peer cs c' rest) as [ds' e'] eqn:E.
+  inversion H; subst. cbn. eapply IH; eauto.
+Qed.
+
+Lemma auth_loop_cmds : forall steps srv peer cs c ds e,
+  auth_loop srv peer cs c steps = (ds, e) ->
+  is_prefix (map dispatch_cmd ds) (c :: follow_ons steps).
+Proof.
+  induction steps as [|st rest IH]; intros srv peer cs c ds e H; loop_cases H.
+  all: try (inversion H; subst; cbn; eexists; reflexivity).
+  cbv zeta in H. unfold follow_ons; cbn [flat_map]; fold (follow_ons rest).
+  destruct (st_ret st); try (inversion H; subst; cbn; eexists; reflexivity).
+  destruct (st_next st) as [c'|]; [|inversion H; subst; cbn; eexists; reflexivity].
+  destruct (auth_loop (st_srv st) peer cs c' rest) as [ds' e'] eqn:E.
+  inversion H; subst. destruct (IH _ _ _ _ _ _ E) as [r Hr].
+  exists r. cbn in *. rewrite Hr. reflexivity.
+Qed.
+
+Lemma auth_loop_nonempty : forall steps srv peer cs c ds e,
+  auth_loop srv peer cs c steps = (ds, e) -> ds <> [].
+Proof.
+  intros steps srv peer cs c ds e H. rewrite auth_loop_eq in H.
+  destruct (lookup _ _); [destruct (h_raw _); [|destruct (negb _)]|];
+    try (inversion H; discriminate).
+  cbv zeta in H. destruct steps as [|st rest]; [inversion H; discriminate|].
+  destruct (st_ret st); try (inversion H; discriminate).
+  destruct (st_next st); [|inversion H; discriminate].
+  destruct (auth_loop _ _ _ _ _). inversion H; discriminate.
+Qed.
+
+Lemma refusals_final_split : forall ds e pre c why post,
+  refusals_final ds e -> ds = pre ++ DRefuse c why :: post -> post = [] /\ e = EClosedErr.
+Proof.
+  induction ds as [|d r IH]; intros e pre c why post F E.
+  - destruct pre; discriminate.
+  - destruct pre as [|p pre']; cbn in E; inversion E; subst.
+    + cbn in F. exact F.
+    + destruct p; cbn in F.
+      * eapply IH; eauto.
+      * destruct F as [F _]. destruct pre'; discriminate.
+Qed.
+
+Lemma refusals_final_invocations : forall ds e c why post,
+  refusals_final ds e -> ds = DRefuse c why :: post -> invocations ds = [].
+Proof.
+  intros ds e c why post F E. destruct (refusals_final_split ds e [] c why post F E) as [P _].
+  subst. reflexivity.
+Qed.
+
+Lemma in_invocations : forall ds i, In i (invocations ds) <-> In (DInvoke i) ds.
+Proof.
+  induction ds as [|d r IH]; intros i; cbn; [tauto|].
+  destruct d; cbn; rewrite IH; intuition congruence.
+Qed.
+
+(* ---- the raw path ---------------------------------------------------------------- *)
+
+Definition raw_good (peer : addr) (d : dispatch) : Prop :=
+  match d with
+  | DRefuse _ _ => True
+  | DInvoke i => i_rawpath i = true /\ registered_raw i /\ i_neg i = None /\ i_enc_real i = false /\ i_peer i = peer
+  end.
+
+Lemma raw_path_good : forall srv peer c steps ds e,
+  raw_path srv peer c steps = (ds, e) ->
+  Forall (raw_good peer) ds /\ refusals_final ds e /\ map dispatch_cmd ds = [c].
+Proof.
+  intros srv peer c steps ds e H. unfold raw_path in H.
+  destruct (lookup (s_handlers srv) c) as [h|] eqn:L.
+  2:{ inversion H; subst; cbn; split; [repeat constructor|split; [auto|reflexivity]]. }
+  destruct (h_raw h) eqn:R; cbn [negb] in H.
+  2:{ inversion H; subst; cbn; split; [repeat constructor|split; [auto|reflexivity]]. }
+  assert (G : raw_good peer (DInvoke {| i_handler := h_id h; i_rawpath := true; i_cmd := c; i_neg := None;
+                i_enc_real := false; i_auth_real := false; i_peer := peer; i_srv := srv |})).
+  { cbn. repeat split; auto. exists h; auto. }
+  cbv zeta in H.
+  assert (D : ds = [DInvoke {| i_handler := h_id h; i_rawpath := true; i_cmd := c; i_neg := None;
+                i_enc_real := false; i_auth_real := false; i_peer := peer; i_srv := srv |}]).
+  { destruct steps as [|st rest]; [|destruct (st_ret st)]; inversion H; reflexivity. }
+  subst ds. split; [constructor; [exact G|constructor]|]. split; [exact I|reflexivity].
+Qed.
+
+(* ---- one connection ------------------------------------------------------------------ *)
+
+(* statement of what one connection guarantees about its invocations,
+   whatever the cache and whatever the handshake produced *)
+Lemma loop_good_reported : forall peer cs i,
+  loop_good peer cs (DInvoke i) ->
+  registered_authenticated i /\ meets_policy_reported i /\ authorized_now i.
+Proof.
+  intros peer cs i [_ [Hreg [Hneg [Hsat [_ [_ Hpeer]]]]]].
+  apply session_satisfies_spec in Hsat. destruct Hsat as [Ha [He Hz]].
+  split; [exact Hreg|]. split.
+  - exists (cs_neg cs). unfold policy_now. auto.
+  - intros az Haz. destruct (Hz az Haz) as [p [Hin Hp]].
+    exists (cs_neg cs), p. rewrite Hpeer. auto.
+Qed.
+
+Theorem serve_conn_reported : forall k cn k' ds e i,
+  serve_conn k cn = (k', (ds, e)) -> In i (invocations ds) -> i_rawpath i = false ->
+  registered_authenticated i /\ meets_policy_reported i /\ authorized_now i.
+Proof.
+  intros k cn k' ds e i H Hin Hraw. apply in_invocations in Hin.
+  unfold serve_conn in H.
+  destruct (c_first cn) as [c|]; [|inversion H; subst; destruct Hin].
+  destruct (Z.eqb c DC_AUTHENTICATE).
+  - destruct (s_default (c_srv cn)); [|inversion H; subst; destruct Hin].
+    destruct (handshake k (c_hs cn)) as [k1 [cs|]]; [|inversion H; subst; destruct Hin].
+    inversion H; subst.
+    pose proof (auth_loop_good _ _ _ _ _ _ _ H2) as G.
+    rewrite Forall_forall in G. eapply loop_good_reported; eauto.
+  - inversion H; subst.
+    destruct (raw_path_good _ _ _ _ _ _ H2) as [G _].
+    rewrite Forall_forall in G. specialize (G _ Hin). cbn in G. destruct G as [G _]. congruence.
+Qed.
+
+(* raw handlers only through the raw path and vice versa *)
+Theorem serve_conn_separation : forall k cn k' ds e i,
+  serve_conn k cn = (k', (ds, e)) -> In i (invocations ds) ->
+  exists c, c_first cn = Some c /\
+    if Z.eqb c DC_AUTHENTICATE
+    then i_rawpath i = false /\ registered_authenticated i /\ i_neg i <> None
+    else i_rawpath i = true /\ registered_raw i /\ i_neg i = None /\ i_cmd i = c /\ i_enc_real i = false.
+Proof.
+  intros k cn k' ds e i H Hin. apply in_invocations in Hin.
+  unfold serve_conn in H.
+  destruct (c_first cn) as [c|]; [|inversion H; subst; destruct Hin].
+  exists c. split; [reflexivity|].
+  destruct (Z.eqb c DC_AUTHENTICATE).
+  - destruct (s_default (c_srv cn)); [|inversion H; subst; destruct Hin].
+    destruct (handshake k (c_hs cn)) as [k1 [cs|]]; [|inversion H; subst; destruct Hin].
+    inversion H; subst.
+    pose proof (auth_loop_good _ _ _ _ _ _ _ H2) as G.
+    rewrite Forall_forall in G. specialize (G _ Hin). cbn in G.
+    destruct G as [G1 [G2 [G3 _]]]. repeat split; auto. congruence.
+  - inversion H; subst.
+    destruct (raw_path_good _ _ _ _ _ _ H2) as [G [_ M]].
+    rewrite Forall_forall in G. specialize (G _ Hin). cbn in G.
+    destruct G as [G1 [G2 [G3 [G4 _]]]]. repeat split; auto.
+    destruct ds as [|d [|d' r]]; cbn in M; try discriminate.
+    destruct Hin as [Hin|[]]. subst d. cbn in M. congruence.
+Qed.
+
+(* a refused or unknown command is the last thing that happens on its
+   connection: nothing is invoked for it or after it, the connection is closed
+   and ServeConn reports an error *)
+Theorem serve_conn_refusal : forall k cn k' ds e pre c why post,
+  serve_conn k cn = (k', (ds, e)) -> ds = pre ++ DRefuse c why :: post ->
+  post = [] /\ e = EClosedErr /\ invocations ds = invocations pre.
+Proof.
+  intros k cn k' ds e pre c why post H E.
+  assert (F : refusals_final ds e).
+  { unfold serve_conn in H.
+    destruct (c_first cn) as [c0|]; [|inversion H; subst; exact I].
+    destruct (Z.eqb c0 DC_AUTHENTICATE).
+    - destruct (s_default (c_srv cn)); [|inversion H; subst; exact I].
+      destruct (handshake k (c_hs cn)) as [k1 [cs|]]; [|inversion H; subst; exact I].
+      inversion H; subst. eapply auth_loop_refusals_final; eauto.
+    - inversion H; subst. eapply raw_path_good; eauto. }
+  destruct (refusals_final_split _ _ _ _ _ _ F E) as [P Q]. subst post.
+  repeat split; auto. subst ds.
+  clear. induction pre as [|d r IH]; cbn; [reflexivity|]. destruct d; cbn; congruence.
+Qed.
+
+(* a connection that ends in any way other than an error close refused nothing *)
+Corollary serve_conn_no_refusal_unless_error : forall k cn k' ds e c why,
+  serve_conn k cn = (k', (ds, e)) -> In (DRefuse c why) ds -> e = EClosedErr.
+Proof.
+  intros k cn k' ds e c why H Hin. apply in_split in Hin. destruct Hin as [pre [post E]].
+  eapply serve_conn_refusal in E; eauto. tauto.
+Qed.
+
+(* the server dispatches exactly the commands the client asked for, in order:
+   nothing runs that was not requested, nothing is skipped *)
+Theorem serve_conn_commands_as_sent : forall k cn k' ds e,
+  serve_conn k cn = (k', (ds, e)) ->
+  ds = [] \/
+  exists c, c_first cn = Some c /\
+    if Z.eqb c DC_AUTHENTICATE
+    then exists c0, requested (c_hs cn) = Some c0 /\ is_prefix (map dispatch_cmd ds) (c0 :: follow_ons (c_steps cn))
+    else map dispatch_cmd ds = [c].
+Proof.
+  intros k cn k' ds e H. unfold serve_conn in H.
+  destruct (c_first cn) as [c|]; [|inversion H; auto].
+  destruct (Z.eqb c DC_AUTHENTICATE) eqn:Ec.
+  - destruct (s_default (c_srv cn)); [|inversion H; auto].
+    destruct (handshake k (c_hs cn)) as [k1 [cs|]] eqn:Hs; [|inversion H; auto].
+    inversion H; subst. right. exists c. split; auto. rewrite Ec.
+    exists (n_cmd (cs_neg cs)). split; [|eapply auth_loop_cmds; eauto].
+    unfold handshake in Hs. unfold requested.
+    destruct (c_hs cn) as [[r|]|r|s oc io].
+    + inversion Hs.
+    + inversion Hs.
+    + inversion Hs; subst. reflexivity.
+    + destruct (cache_lookup k s) as [en|]; [|inversion Hs].
+      destruct io; [|inversion Hs]. inversion Hs; subst.
+      unfold resume in H3. destruct (e_key en); inversion H3; subst; reflexivity.
+  - inversion H; subst. right. exists c. split; auto. rewrite Ec.
+    eapply raw_path_good; eauto.
+Qed.
+
+(* ---- resumption restores exactly what was stored ------------------------------------------ *)
+
+Theorem resume_restores : forall en s c cs,
+  resume en s c = Some cs ->
+  n_cmd (cs_neg cs) = c /\ n_sid (cs_neg cs) = s /\
+  n_authn (cs_neg cs) = e_authn en /\ n_user (cs_neg cs) = e_user en /\
+  cs_auth_real cs = e_auth_real en /\
+  (cs_enc_real cs = true <-> e_key en = KAes) /\
+  (n_enc (cs_neg cs) = true <-> (e_key en = KAes \/ e_key en = KAesEmpty)).
+Proof.
+  intros en s c cs H. unfold resume in H.
+  destruct (e_key en) eqn:K; inversion H; subst; cbn; repeat split; auto;
+    try discriminate; try (intros [?|?]; discriminate).
+Qed.
+
+(* ---- reported = real, carried through the cache and the loop -------------------------------- *)
+
+Definition cs_faithful (cs : cstate) : Prop :=
+  (n_authn (cs_neg cs) = true -> cs_auth_real cs = true) /\
+  (n_enc (cs_neg cs) = true -> cs_enc_real cs = true).
+
+Lemma cache_lookup_in : forall k s en, cache_lookup k s = Some en -> In (s, en) k.
+Proof.
+  induction k as [|[i x] r IH]; intros s en H; cbn in H; [discriminate|].
+  destruct (N.eqb i s) eqn:E.
+  - apply N.eqb_eq in E. inversion H; subst. left; reflexivity.
+  - right; auto.
+Qed.
+
+Lemma cache_drop_faithful : forall k s, cache_faithful k -> cache_faithful (cache_drop k s).
+Proof.
+  unfold cache_faithful. induction k as [|[i x] r IH]; intros s F; cbn; [constructor|].
+  inversion F; subst. destruct (N.eqb i s); [auto|constructor; auto].
+Qed.
+
+Lemma entry_of_full_faithful : forall r, full_faithful r -> entry_faithful (entry_of_full r).
+Proof.
+  intros r [Fa Fe]. unfold entry_faithful, entry_of_full; cbn. split; auto.
+  destruct (f_haskey r); discriminate.
+Qed.
+
+Lemma resume_faithful : forall en s c cs, entry_faithful en -> resume en s c = Some cs -> cs_faithful cs.
+Proof.
+  intros en s c cs [Fa Fk] H. unfold resume in H.
+  destruct (e_key en) eqn:K; inversion H; subst; unfold cs_faithful; cbn; split; auto; try discriminate; try congruence.
+Qed.
+
+Lemma handshake_faithful : forall k h k' ocs,
+  cache_faithful k -> Forall full_faithful (full_of_hs h) -> handshake k h = (k', ocs) ->
+  cache_faithful k' /\ (forall cs, ocs = Some cs -> cs_faithful cs).
+Proof.
+  intros k h k' ocs Fk Fh H. unfold handshake in H.
+  destruct h as [[r|]|r|s oc io]; cbn in Fh.
+  - inversion H; subst. inversion Fh; subst. split; [|discriminate].
+    constructor; auto. cbn. apply entry_of_full_faithful; auto.
+  - inversion H; subst. split; [auto|discriminate].
+  - inversion H; subst. inversion Fh; subst. split.
+    + constructor; auto. cbn. apply entry_of_full_faithful; auto.
+    + intros cs E. inversion E; subst. destruct H2 as [Fa Fe]. split; cbn; auto.
+  - destruct (cache_lookup k s) as [en|] eqn:L.
+    + destruct io; inversion H; subst; (split; [auto|]); [|discriminate].
+      intros cs E. eapply resume_faithful; eauto.
+      apply cache_lookup_in in L. unfold cache_faithful in Fk. rewrite Forall_forall in Fk.
+      apply (Fk (s, en)); auto.
+    + inversion H; subst. split; [auto|discriminate].
+Qed.
+
+Lemma loop_good_real : forall peer cs i,
+  cs_faithful cs -> loop_good peer cs (DInvoke i) -> meets_policy_real i.
+Proof.
+  intros peer cs i [Fa Fe] [_ [_ [_ [Hsat [He [Ha _]]]]]].
+  apply session_satisfies_spec in Hsat. destruct Hsat as [Sa [Se _]].
+  unfold meets_policy_real, policy_now. rewrite He, Ha. split; auto.
+Qed.
+
+Lemma serve_conn_real : forall k cn k' ds e,
+  cache_faithful k -> Forall full_faithful (full_of_hs (c_hs cn)) ->
+  serve_conn k cn = (k', (ds, e)) ->
+  cache_faithful k' /\
+  (forall i, In i (invocations ds) -> i_rawpath i = false -> meets_policy_real i).
+Proof.
+  intros k cn k' ds e Fk Fh H. unfold serve_conn in H.
+  destruct (c_first cn) as [c|]; [|inversion H; subst; split; [auto|intros i []]].
+  destruct (Z.eqb c DC_AUTHENTICATE).
+  - destruct (s_default (c_srv cn)); [|inversion H; subst; split; [auto|intros i []]].
+    destruct (handshake k (c_hs cn)) as [k1 ocs] eqn:Hs.
+    destruct (handshake_faithful _ _ _ _ Fk Fh Hs) as [Fk1 Fcs].
+    destruct ocs as [cs|]; [|inversion H; subst; split; [auto|intros i []]].
+    inversion H; subst. split; [auto|].
+    intros i Hin _. apply in_invocations in Hin.
+    pose proof (auth_loop_good _ _ _ _ _ _ _ H2) as G. rewrite Forall_forall in G.
+    eapply loop_good_real; eauto.
+  - inversion H; subst. split; [auto|].
+    intros i Hin Hr. apply in_invocations in Hin.
+    destruct (raw_path_good _ _ _ _ _ _ H2) as [G _].
+    rewrite Forall_forall in G. specialize (G _ Hin). cbn in G. destruct G as [G _]. congruence.
+Qed.
+
+(* ---- histories ---------------------------------------------------------------------------------- *)
+
+Lemma invocations_app : forall a b, invocations (a ++ b) = invocations a ++ invocations b.
+Proof.
+  induction a as [|d r IH]; intros b; cbn; [reflexivity|]. destruct d; cbn; rewrite IH; reflexivity.
+Qed.
+
+(* every connection result in a history is serve_conn run from SOME cache *)
+Lemma run_history_in : forall evs k out,
+  In out (run_history k evs) -> exists k0 cn k1, In (EConn cn) evs /\ serve_conn k0 cn = (k1, out).
+Proof.
+  induction evs as [|ev r IH]; intros k out Hin; cbn in Hin; [destruct Hin|].
+  destruct ev as [cn|s|s en].
+  - destruct (serve_conn k cn) as [k' o] eqn:E. destruct Hin as [Hin|Hin].
+    + subst. exists k, cn, k'. split; [left; reflexivity|auto].
+    + destruct (IH _ _ Hin) as [k0 [cn0 [k1 [A B]]]]. exists k0, cn0, k1. split; [right; auto|auto].
+  - destruct (IH _ _ Hin) as [k0 [cn0 [k1 [A B]]]]. exists k0, cn0, k1. split; [right; auto|auto].
+  - destruct (IH _ _ Hin) as [k0 [cn0 [k1 [A B]]]]. exists k0, cn0, k1. split; [right; auto|auto].
+Qed.
+
+Lemma history_invocations_in : forall k evs i,
+  In i (history_invocations k evs) ->
+  exists out, In out (run_history k evs) /\ In i (invocations (fst out)).
+Proof.
+  intros k evs i. unfold history_invocations, history_dispatches.
+  generalize (run_history k evs). induction l as [|o r IH]; cbn; [tauto|].
+  rewrite invocations_app, in_app_iff. intros [H|H].
+  - exists o; auto.
+  - destruct (IH H) as [out [A B]]. exists out; auto.
+Qed.
+
+Theorem history_dispatch : forall k evs i,
+  In i (history_invocations k evs) -> i_rawpath i = false ->
+  registered_authenticated i /\ meets_policy_reported i /\ authorized_now i.
+Proof.
+  intros k evs i Hin Hr.
+  destruct (history_invocations_in _ _ _ Hin) as [[ds e] [A B]].
+  destruct (run_history_in _ _ _ A) as [k0 [cn [k1 [_ S]]]].
+  eapply serve_conn_reported; eauto.
+Qed.
+
+Theorem history_separation : forall k evs i,
+  In i (history_invocations k evs) ->
+  (i_rawpath i = false /\ registered_authenticated i /\ i_neg i <> None) \/
+  (i_rawpath i = true /\ registered_raw i /\ i_neg i = None /\ i_enc_real i = false).
+Proof.
+  intros k evs i Hin.
+  destruct (history_invocations_in _ _ _ Hin) as [[ds e] [A B]].
+  destruct (run_history_in _ _ _ A) as [k0 [cn [k1 [_ S]]]].
+  destruct (serve_conn_separation _ _ _ _ _ _ S B) as [c [_ H]].
+  destruct (Z.eqb c DC_AUTHENTICATE); [left|right]; tauto.
+Qed.
+
+Theorem history_refusal : forall k evs ds e pre c why post,
+  In (ds, e) (run_history k evs) -> ds = pre ++ DRefuse c why :: post ->
+  post = [] /\ e = EClosedErr /\ invocations ds = invocations pre.
+Proof.
+  intros k evs ds e pre c why post Hin E.
+  destruct (run_history_in _ _ _ Hin) as [k0 [cn [k1 [_ S]]]].
+  eapply serve_conn_refusal; eauto.
+Qed.
+
+Lemma history_real_gen : forall evs k,
+  cache_faithful k -> Forall full_faithful (history_fulls evs) -> Forall entry_faithful (history_imports evs) ->
+  forall out, In out (run_history k evs) ->
+  forall i, In i (invocations (fst out)) -> i_rawpath i = false -> meets_policy_real i.
+Proof.
+  induction evs as [|ev r IH]; intros k Fk Ff Fi out Hin; cbn in Hin; [destruct Hin|].
+  destruct ev as [cn|s|s en]; cbn in Ff, Fi.
+  - apply Forall_app in Ff. destruct Ff as [Ff1 Ff2].
+    destruct (serve_conn k cn) as [k' [ds e]] eqn:E.
+    destruct (serve_conn_real _ _ _ _ _ Fk Ff1 E) as [Fk' G].
+    destruct Hin as [Hin|Hin].
+    + subst out. cbn. exact G.
+    + eapply IH; eauto.
+  - eapply (IH (cache_drop k s)); eauto. apply cache_drop_faithful; auto.
+  - inversion Fi; subst. eapply (IH (cache_store k s en)); eauto. constructor; auto.
+Qed.
+
+Theorem history_dispatch_real : forall k evs i,
+  cache_faithful k -> Forall full_faithful (history_fulls evs) -> Forall entry_faithful (history_imports evs) ->
+  In i (history_invocations k evs) -> i_rawpath i = false -> meets_policy_real i.
+Proof.
+  intros k evs i Fk Ff Fi Hin Hr.
+  destruct (history_invocations_in _ _ _ Hin) as [out [A B]].
+  eapply history_real_gen; eauto.
+Qed.
+
+(* ---- ValidCommands -------------------------------------------------------------------------------- *)
+
+Theorem post_auth_policy_sound : forall s u peer a e c,
+  In c (post_auth_policy s u peer a e) ->
+  (exists h, lookup (s_handlers s) c = Some h /\ h_raw h = false /\ h_perms h <> []) /\
+  (forall n, n_authn n = a -> n_enc n = e -> n_user n = u -> session_satisfies s c peer (Some n) = true).
+Proof.
+  intros s u peer a e c H. unfold post_auth_policy in H.
+  destruct (s_authorizer s) as [az|] eqn:A; [|destruct H].
+  apply filter_In in H. destruct H as [_ H].
+  destruct (lookup (s_handlers s) c) as [h|] eqn:L; [|discriminate].
+  apply andb_true_iff in H. destruct H as [H Hz].
+  apply andb_true_iff in H. destruct H as [H Hl].
+  apply andb_true_iff in H. destruct H as [Hr Hp].
+  split.
+  - exists h. repeat split; auto.
+    + destruct (h_raw h); [discriminate|reflexivity].
+    + destruct (h_perms h); [discriminate|discriminate].
+  - intros n Ha He Hu. unfold session_satisfies. rewrite Ha, He, Hl, A. cbn [negb].
+    unfold authorized, command_perms. rewrite L, Hu. exact Hz.
 Qed.
